@@ -90,6 +90,39 @@ class FlatView(object):
                     if isinstance(v, ast.Name) and v.id in env:
                         env[k] = env[v.id]
             f2 = pysym.subst(f, env)
+            # a local bound once to a record built with keywords (`t = _Paths(directory=d, final=p, staging=s)`, a module-level
+            # collections.namedtuple) and only ever read field by field stands for its fields: `t.staging` is `s`
+            recs = {}
+            for k, v in val.items():
+                if count.get(k) != 1 or k in params or not isinstance(v, ast.Call) or not isinstance(v.func, ast.Name) or v.args or not v.keywords:
+                    continue
+                mod = getattr(self.module, "module", self.module)
+                mv = mod.module_assign(v.func.id) if hasattr(mod, "module_assign") else None
+                if not (isinstance(mv, ast.Call) and (pyfront_dotted(mv.func) or "").endswith("namedtuple")):
+                    continue
+                if any(kw.arg is None or not isinstance(kw.value, (ast.Name, ast.Constant)) for kw in v.keywords):
+                    continue
+                # every field value is a name bound at most once (or a constant), and the record is used only as `k.<field>`
+                if any(isinstance(kw.value, ast.Name) and count.get(kw.value.id, 0) > 1 for kw in v.keywords):
+                    continue
+                uses = [x for x in ast.walk(f2) if isinstance(x, ast.Name) and x.id == k and isinstance(x.ctx, ast.Load)]
+                attr_uses = [x for x in ast.walk(f2) if isinstance(x, ast.Attribute) and isinstance(x.value, ast.Name) and x.value.id == k]
+                if len(uses) == len(attr_uses) and all(a.attr in {kw.arg for kw in v.keywords} for a in attr_uses):
+                    recs[k] = {kw.arg: kw.value for kw in v.keywords}
+            if recs:
+                class Scalar(ast.NodeTransformer):
+                    def visit_Attribute(self_, node):
+                        self_.generic_visit(node)
+                        if isinstance(node.value, ast.Name) and node.value.id in recs and isinstance(node.ctx, ast.Load):
+                            return ast.copy_location(copy.deepcopy(recs[node.value.id][node.attr]), node)
+                        return node
+
+                    def visit_Assign(self_, node):
+                        if len(node.targets) == 1 and isinstance(node.targets[0], ast.Name) and node.targets[0].id in recs:
+                            return ast.copy_location(ast.Pass(), node)
+                        self_.generic_visit(node)
+                        return node
+                f2 = Scalar().visit(f2)
 
             class Drop(ast.NodeTransformer):
                 def visit_Assign(self_, node):
@@ -134,6 +167,17 @@ class FlatView(object):
 
     def module_assign(self, name):
         return self.module.module_assign(name)
+
+
+def pyfront_dotted(node):
+    parts = []
+    while isinstance(node, ast.Attribute):
+        parts.append(node.attr)
+        node = node.value
+    if isinstance(node, ast.Name):
+        parts.append(node.id)
+        return ".".join(reversed(parts))
+    return None
 
 
 def _assigned_names(fn):
@@ -217,10 +261,20 @@ def _kwarg_forwarded_only(h):
         isinstance(n, ast.Name) and n.id == kw and isinstance(n.ctx, (ast.Store, ast.Del)) for n in ast.walk(h))
 
 
+def _vararg_forwarded_only(h):
+    """the *args parameter of h is used only as `*args` in the positional arguments of calls (forwarded)"""
+    va = h.args.vararg.arg
+    fwd = {id(a.value) for c in ast.walk(h) if isinstance(c, ast.Call) for a in c.args if isinstance(a, ast.Starred)
+           and isinstance(a.value, ast.Name) and a.value.id == va}
+    return all(id(n) in fwd for n in ast.walk(h) if isinstance(n, ast.Name) and n.id == va)
+
+
 def _inlinable(h):
     if isinstance(h, ast.AsyncFunctionDef):
         return False
-    if h.args.vararg or h.args.posonlyargs or h.args.kwonlyargs and h.args.kwarg:
+    if h.args.posonlyargs or h.args.kwonlyargs and (h.args.kwarg or h.args.vararg):
+        return False
+    if h.args.vararg and not _vararg_forwarded_only(h):
         return False
     if h.args.kwarg and not _kwarg_forwarded_only(h):
         return False
@@ -293,7 +347,7 @@ class _Flattener(object):
         if any(k.arg is None for k in call.keywords) and not (h.args.kwarg is not None and all(
                 isinstance(k.value, ast.Name) for k in call.keywords if k.arg is None)):
             return None
-        if len(call.args) > len(params):
+        if len(call.args) > len(params) and h.args.vararg is None:
             return None
         return name, h, params
 
@@ -310,6 +364,7 @@ class _Flattener(object):
         binding = {}
         for p, a in zip(params, call.args):
             binding[p] = a
+        extra_pos = list(call.args[len(params):])
         extra = []
         stars = []
         for kw in call.keywords:
@@ -350,6 +405,45 @@ class _Flattener(object):
         body = holder.body
         pre = []
         line = getattr(call, "lineno", 1)
+        if h.args.vararg is not None:
+            # the positional arguments collected by *args are bound to locals at the call and written out wherever the helper forwards them
+            vaname = mapping.get(h.args.vararg.arg, h.args.vararg.arg)
+            locs = []
+            for i_, av in enumerate(extra_pos):
+                loc = "%s__%d__h%d" % (vaname, i_, k)
+                pre.append(ast.copy_location(ast.Assign([ast.Name(loc, ast.Store())], copy.deepcopy(av)), call))
+                self.caller_names.add(loc)
+                locs.append(loc)
+            for c in ast.walk(holder):
+                if isinstance(c, ast.Call):
+                    out = []
+                    for ax in c.args:
+                        if isinstance(ax, ast.Starred) and isinstance(ax.value, ast.Name) and ax.value.id == vaname:
+                            out.extend(ast.Name(l_, ast.Load()) for l_ in locs)
+                        else:
+                            out.append(ax)
+                    c.args = out
+            ast.fix_missing_locations(holder)
+        # a parameter that receives a function of an imported module (`helper(_ext.rf_write, ...)`) and is never stored in the helper
+        # stands for that function: written out, so that `f(x)` in the helper is the call `_ext.rf_write(x)`
+        imported = {(a_.asname or a_.name).split(".")[0] for st_ in getattr(getattr(self.m, "module", self.m), "tree", ast.Module(body=[], type_ignores=[])).body if isinstance(st_, (ast.Import, ast.ImportFrom)) for a_ in st_.names}
+        direct = {}
+        for p_ in params:
+            v_ = binding.get(p_)
+            root = v_
+            while isinstance(root, ast.Attribute):
+                root = root.value
+            if isinstance(v_, ast.Attribute) and isinstance(root, ast.Name) and root.id in imported and p_ not in same \
+                    and not any(isinstance(x, ast.Name) and x.id == mapping.get(p_, p_) and isinstance(x.ctx, (ast.Store, ast.Del)) for x in ast.walk(holder)):
+                direct[mapping.get(p_, p_)] = v_
+        if direct:
+            class _Sub(ast.NodeTransformer):
+                def visit_Name(self_, node):
+                    if node.id in direct and isinstance(node.ctx, ast.Load):
+                        return ast.copy_location(copy.deepcopy(direct[node.id]), node)
+                    return node
+            _Sub().visit(holder)
+            body = holder.body
         if h.args.kwarg is not None:
             # the keywords collected by **kwargs are bound to locals at the call and written out wherever the helper forwards them
             kwname = mapping.get(h.args.kwarg.arg, h.args.kwarg.arg)
@@ -371,7 +465,7 @@ class _Flattener(object):
                     c.keywords = out
             ast.fix_missing_locations(holder)
         for p in params:
-            if p in same:
+            if p in same or mapping.get(p, p) in direct:
                 continue
             tgt = ast.Name(mapping.get(p, p), ast.Store())
             pre.append(ast.copy_location(ast.Assign([tgt], copy.deepcopy(binding[p])), call))
